@@ -181,12 +181,12 @@ def programs_for(kind, rng, n):
             ("full", [["c1"], ["rem"]]),
             ("empty", [["c1", "c1"], ["c1", "c1"], ["rem"]]),
         ]
-    out = list(fixed)
-    while len(out) < n:
+    rnd = []
+    while len(rnd) < n:
         k = rng.choice([2, 2, 3])
         prog = [[rng.choice(ops) for _ in range(rng.choice([1, 1, 2]))] for _ in range(k)]
-        out.append((rng.choice(inits), prog))
-    return out[:n]
+        rnd.append((rng.choice(inits), prog))
+    return fixed, rnd
 
 
 def explore(ctx, kind, init, program, world, rng, bound, limit, nrandom):
@@ -313,18 +313,16 @@ def stress(ctx, world, rng, rounds, nthreads):
 def work(ctx, tier):
     rng = common.rng_for(ctx, "main")
     world = env.World()
-    nprog = (36 if tier == "quick" else 480) // ctx.nshards
+    nprog = max(2, (32 if tier == "quick" else 480) // ctx.nshards)
     bound = 2 if tier == "quick" else 3
     limit = 350 if tier == "quick" else 6000
     nrandom = 60 if tier == "quick" else 600
     with env.active(world):
         for kind in ("breaker", "budget"):
-            progs = programs_for(kind, rng, max(nprog, 10 // ctx.nshards + 1) if kind == "breaker" else max(nprog // 2, 7 // ctx.nshards + 1))
+            fixed, rnd = programs_for(kind, rng, nprog if kind == "breaker" else max(nprog // 2, 2))
             # fixed programs are split across shards, random ones differ per shard already
-            fixed_n = 10 if kind == "breaker" else 7
+            progs = [fp for i, fp in enumerate(fixed) if i % ctx.nshards == ctx.shard] + rnd
             for i, (init, prog) in enumerate(progs):
-                if i < fixed_n and i % ctx.nshards != ctx.shard:
-                    continue
                 k = explore(ctx, kind, init, prog, world, rng, bound, limit, nrandom)
                 if len(ctx.samples) < 3 and ctx.shard == 0 and k:
                     ctx.sample({"component": kind, "initial_state": init, "program": prog, "distinct_schedules_explored": k})
